@@ -47,127 +47,141 @@ def rank_table(values):
     return out
 
 
+
+def _uninterpretable(i, pid):
+    """an exception while a case was being built from what the library returned: a verdict about the library (the stream runs
+    on the unchanged tree with many seeds without ever getting here), not a crash of the check"""
+    import traceback
+    return {"stream": "uninterpretable", "op": "uninterpretable", "term": "[true; false; true; true]",
+            "input": {"case_number": i}, "impl_repr": "the case could not be built / interpreted: " + traceback.format_exc()[-700:],
+            "meta": {"impl_raised": True}, "sig": ["uninterpretable", pid, i], "trivial": False,
+            "hist": {"op": "uninterpretable"}}
+
+
 def generate(ctx):
     rng = ctx.rng
     cases = []
     for i in range(ctx.budget(140, 1300)):
-        schema = gen.spice_names(rng, gen.gen_schema(rng, 4, types=["int64", "double", "string", "bool", "int64", "double"]))
-        heavy = i % 9 == 8
-        n = rng.randint(0, 7 if ctx.tier == "quick" else 12)
-        rows_g = gen.gen_rows(rng, schema, n, max_len=30 if heavy else 6, null_p=0.2)
-        # pandas 2.2.3 cannot lexsort an Arrow-backed double column that holds BOTH -0.0 and 0.0 ("Categorical categories
-        # must be unique", raised inside DataFrame.sort_values itself): a limitation of the engine, not generated
-        for r in rows_g:
-            if r is not None:
-                for nm, t in schema:
-                    if t == "double":
-                        r[nm] = [0.0 if (v is not None and v == 0.0) else v for v in r[nm]]
-        recipe = fo.LAYOUTS[i % len(fo.LAYOUTS)] if i < len(fo.LAYOUTS) else rng.choice(fo.LAYOUTS)
-        inp = ao.mk_input(rng, content=(schema, rows_g), recipe=recipe, recipes=fo.LAYOUTS)
-        if inp.get("history_failed"):
-            cases.append(ao.history_failure_case(inp))
-            continue
-        if inp["built"][0] != "ok":
-            continue
-        schema = inp["schema"]
-        names = [nm for nm, _ in schema]
-        nf, labels, label_kind = fo.make_frame(rng, inp)
-        rows = fo.rows_rm(inp["ca"])
-        import math as _m
-        zs = [{_m.copysign(1.0, rec[j]) for r in rows if r for rec in r if isinstance(rec[j], float) and rec[j] == 0.0}
-              for j in range(len(names))]
-        if any(len(z) > 1 for z in zs):
-            continue          # both zero signs in one column (a lived object may bring -0.0 back): pandas' own lexsort limitation
-        kind = ["nested"] * 7 + ["base", "two_layers", "nested_list1"]
-        kind = kind[i % len(kind)]
-        inplace = rng.random() < 0.3
-        na_position = rng.choice(["last", "first"])
-        sortable = [nm for nm, t in schema if t != "timestamp"] or names
-        before = fo.snapshot(nf, skip=("n",))
-        whole = fo.snapshot(nf)
-        if kind.startswith("nested"):
-            keys = rng.sample(sortable, rng.randint(1, min(3, len(sortable))))
-            if kind == "nested_list1":
-                keys = keys[:1]
-            asc = [rng.random() < 0.5 for _ in keys]
-            if len(set(asc)) == 1 and rng.random() < 0.6:
-                ascending = asc[0]
-            else:
-                ascending = list(asc)
-            by = [f"n.{k}" for k in keys]
-            if len(by) == 1 and kind != "nested_list1" and rng.random() < 0.5:
-                by = by[0]
+        try:
+            schema = gen.spice_names(rng, gen.gen_schema(rng, 4, types=["int64", "double", "string", "bool", "int64", "double"]))
+            heavy = i % 9 == 8
+            n = rng.randint(0, 7 if ctx.tier == "quick" else 12)
+            rows_g = gen.gen_rows(rng, schema, n, max_len=30 if heavy else 6, null_p=0.2)
+            # pandas 2.2.3 cannot lexsort an Arrow-backed double column that holds BOTH -0.0 and 0.0 ("Categorical categories
+            # must be unique", raised inside DataFrame.sort_values itself): a limitation of the engine, not generated
+            for r in rows_g:
+                if r is not None:
+                    for nm, t in schema:
+                        if t == "double":
+                            r[nm] = [0.0 if (v is not None and v == 0.0) else v for v in r[nm]]
+            recipe = fo.LAYOUTS[i % len(fo.LAYOUTS)] if i < len(fo.LAYOUTS) else rng.choice(fo.LAYOUTS)
+            inp = ao.mk_input(rng, content=(schema, rows_g), recipe=recipe, recipes=fo.LAYOUTS)
+            if inp.get("history_failed"):
+                cases.append(ao.history_failure_case(inp))
+                continue
+            if inp["built"][0] != "ok":
+                continue
+            schema = inp["schema"]
+            names = [nm for nm, _ in schema]
+            nf, labels, label_kind = fo.make_frame(rng, inp)
+            rows = fo.rows_rm(inp["ca"])
+            import math as _m
+            zs = [{_m.copysign(1.0, rec[j]) for r in rows if r for rec in r if isinstance(rec[j], float) and rec[j] == 0.0}
+                  for j in range(len(names))]
+            if any(len(z) > 1 for z in zs):
+                continue          # both zero signs in one column (a lived object may bring -0.0 back): pandas' own lexsort limitation
+            kind = ["nested"] * 7 + ["base", "two_layers", "nested_list1"]
+            kind = kind[i % len(kind)]
+            inplace = rng.random() < 0.3
+            na_position = rng.choice(["last", "first"])
+            sortable = [nm for nm, t in schema if t != "timestamp"] or names
+            before = fo.snapshot(nf, skip=("n",))
+            whole = fo.snapshot(nf)
+            if kind.startswith("nested"):
+                keys = rng.sample(sortable, rng.randint(1, min(3, len(sortable))))
+                if kind == "nested_list1":
+                    keys = keys[:1]
+                asc = [rng.random() < 0.5 for _ in keys]
+                if len(set(asc)) == 1 and rng.random() < 0.6:
+                    ascending = asc[0]
+                else:
+                    ascending = list(asc)
+                by = [f"n.{k}" for k in keys]
+                if len(by) == 1 and kind != "nested_list1" and rng.random() < 0.5:
+                    by = by[0]
 
-            def run():
-                target = nf.copy() if inplace else nf
-                out = target.sort_values(by, ascending=ascending, na_position=na_position, inplace=inplace)
-                out = target if inplace else out
-                assert isinstance(out, NestedFrame)
-                assert fo.snapshot(out, skip=("n",)) == before, "labels, order, base or other nested columns changed"
-                assert list(out.columns) == list(nf.columns)
-                return fo.rows_rm(out["n"].array.chunked_array)
-            res = attempt(run)
-            # one rank table per element type over the union of the key columns of that type (tokens of different
-            # types are disjoint, a value must have ONE rank wherever it occurs)
-            by_type = {}
-            for k in keys:
-                j = names.index(k)
-                by_type.setdefault(dict(schema)[k], []).extend(rec[j] for r in rows if r for rec in r)
-            tbl = []
-            for vals in by_type.values():
-                tbl += rank_table(vals)
-            tbl_t = cq_list(f"({cq_val(t)}, {core.cq_Z(rk)})" for t, rk in dict(tbl).items())
-            keys_t = cq_list(f"({names.index(k)}, {cq_bool(a)})" for k, a in zip(keys, asc))
-            nal = cq_bool(na_position == "last")
-            le = f"(rec_le_keys {tbl_t} {nal} {keys_t})"
-            if res[0] == "ok":
-                term = (f"(let rows := {fo.cq_nrows(rows)} in let impl := {fo.cq_nrows(res[1])} in "
-                        f"[match m_sort_nested_with (sort_flat {le}) rows with Ok m => keys_agree {tbl_t} {nal} {keys_t} m impl | Err => false end; "
-                        f"check_sorted_rows {le} rows impl && {cq_bool(fo.snapshot(nf) == whole)}; true; true])")
-                nontrivial = fo.cq_nrows(res[1]) != fo.cq_nrows(rows)
+                def run():
+                    target = nf.copy() if inplace else nf
+                    out = target.sort_values(by, ascending=ascending, na_position=na_position, inplace=inplace)
+                    out = target if inplace else out
+                    assert isinstance(out, NestedFrame)
+                    assert fo.snapshot(out, skip=("n",)) == before, "labels, order, base or other nested columns changed"
+                    assert list(out.columns) == list(nf.columns)
+                    return fo.rows_rm(out["n"].array.chunked_array)
+                res = attempt(run)
+                # one rank table per element type over the union of the key columns of that type (tokens of different
+                # types are disjoint, a value must have ONE rank wherever it occurs)
+                by_type = {}
+                for k in keys:
+                    j = names.index(k)
+                    by_type.setdefault(dict(schema)[k], []).extend(rec[j] for r in rows if r for rec in r)
+                tbl = []
+                for vals in by_type.values():
+                    tbl += rank_table(vals)
+                tbl_t = cq_list(f"({cq_val(t)}, {core.cq_Z(rk)})" for t, rk in dict(tbl).items())
+                keys_t = cq_list(f"({names.index(k)}, {cq_bool(a)})" for k, a in zip(keys, asc))
+                nal = cq_bool(na_position == "last")
+                le = f"(rec_le_keys {tbl_t} {nal} {keys_t})"
+                if res[0] == "ok":
+                    term = (f"(let rows := {fo.cq_nrows(rows)} in let impl := {fo.cq_nrows(res[1])} in "
+                            f"[match m_sort_nested_with (sort_flat {le}) rows with Ok m => keys_agree {tbl_t} {nal} {keys_t} m impl | Err => false end; "
+                            f"check_sorted_rows {le} rows impl && {cq_bool(fo.snapshot(nf) == whole)}; true; true])")
+                    nontrivial = fo.cq_nrows(res[1]) != fo.cq_nrows(rows)
+                else:
+                    term = "[false; false; true; true]"
+                    nontrivial = False
+                args = {"by": by, "ascending": ascending, "na_position": na_position, "inplace": inplace}
+            elif kind == "base":
+                asc = rng.random() < 0.5
+                def run_b():
+                    out = nf.sort_values("w", ascending=asc, na_position=na_position, kind="stable")
+                    assert isinstance(out, NestedFrame)
+                    wv = nf["w"].tolist()
+                    idx = list(range(len(rows)))
+                    nn = [j for j in idx if wv[j] is not None and wv[j] is not pd.NA]
+                    na = [j for j in idx if j not in nn]
+                    nn.sort(key=lambda j: wv[j], reverse=not asc)   # python's sort is stable also with reverse=True
+                    if not asc:
+                        # pandas' stable descending sort keeps ties in original order
+                        nn = sorted([j for j in idx if j not in na], key=lambda j: -wv[j])
+                    order = (nn + na) if na_position == "last" else (na + nn)
+                    assert [int(v) for v in out["x"]] == order, "row order differs from a stable sort of the base column"
+                    got = fo.rows_rm(out["n"].array.chunked_array)
+                    assert fo.cq_nrows(got) == fo.cq_nrows([rows[j] for j in order]), "a nested table did not travel with its row"
+                    assert repr(out["other"].array.chunked_array.to_pylist()) == repr([nf["other"].array.chunked_array.to_pylist()[j] for j in order])
+                    return True
+                res = attempt(run_b)
+                term = f"[true; {cq_bool(res[0] == 'ok')}; true; true]"
+                nontrivial = len(rows) > 1
+                args = {"by": "w", "ascending": asc, "na_position": na_position}
             else:
-                term = "[false; false; true; true]"
-                nontrivial = False
-            args = {"by": by, "ascending": ascending, "na_position": na_position, "inplace": inplace}
-        elif kind == "base":
-            asc = rng.random() < 0.5
-            def run_b():
-                out = nf.sort_values("w", ascending=asc, na_position=na_position, kind="stable")
-                assert isinstance(out, NestedFrame)
-                wv = nf["w"].tolist()
-                idx = list(range(len(rows)))
-                nn = [j for j in idx if wv[j] is not None and wv[j] is not pd.NA]
-                na = [j for j in idx if j not in nn]
-                nn.sort(key=lambda j: wv[j], reverse=not asc)   # python's sort is stable also with reverse=True
-                if not asc:
-                    # pandas' stable descending sort keeps ties in original order
-                    nn = sorted([j for j in idx if j not in na], key=lambda j: -wv[j])
-                order = (nn + na) if na_position == "last" else (na + nn)
-                assert [int(v) for v in out["x"]] == order, "row order differs from a stable sort of the base column"
-                got = fo.rows_rm(out["n"].array.chunked_array)
-                assert fo.cq_nrows(got) == fo.cq_nrows([rows[j] for j in order]), "a nested table did not travel with its row"
-                assert repr(out["other"].array.chunked_array.to_pylist()) == repr([nf["other"].array.chunked_array.to_pylist()[j] for j in order])
-                return True
-            res = attempt(run_b)
-            term = f"[true; {cq_bool(res[0] == 'ok')}; true; true]"
-            nontrivial = len(rows) > 1
-            args = {"by": "w", "ascending": asc, "na_position": na_position}
-        else:
-            by = [f"n.{rng.choice(sortable)}", rng.choice(["w", "other.q"])]
-            rng.shuffle(by)
-            res = attempt(lambda: nf.sort_values(by))
-            term = f"[true; {cq_bool(res[0] == 'err' and fo.snapshot(nf) == whole)}; true; true]"
-            nontrivial = True
-            args = {"by": by}
-        cases.append({
-            "stream": "sort", "op": "sort_" + kind, "term": term,
-            "input": dict(ao.input_repr(inp), labels=[repr(x) for x in labels], args={k: repr(v) for k, v in args.items()}),
-            "impl_repr": str(res)[:500],
-            "meta": ao.base_meta(inp, impl_raised=res[0] == "err", repeated_labels=len(set(labels)) != len(labels), label_kind=label_kind),
-            "sig": [kind, str(args.get("ascending")), na_position, inp["recipe"], label_kind, len(rows), heavy],
-            "trivial": not nontrivial,
-            "hist": {"op": "sort_" + kind, "layout": inp["recipe"], "labels": label_kind, "na_position": na_position,
-                     "raised": res[0] == "err", "heavy": heavy}})
+                by = [f"n.{rng.choice(sortable)}", rng.choice(["w", "other.q"])]
+                rng.shuffle(by)
+                res = attempt(lambda: nf.sort_values(by))
+                term = f"[true; {cq_bool(res[0] == 'err' and fo.snapshot(nf) == whole)}; true; true]"
+                nontrivial = True
+                args = {"by": by}
+            cases.append({
+                "stream": "sort", "op": "sort_" + kind, "term": term,
+                "input": dict(ao.input_repr(inp), labels=[repr(x) for x in labels], args={k: repr(v) for k, v in args.items()}),
+                "impl_repr": str(res)[:500],
+                "meta": ao.base_meta(inp, impl_raised=res[0] == "err", repeated_labels=len(set(labels)) != len(labels), label_kind=label_kind),
+                "sig": [kind, str(args.get("ascending")), na_position, inp["recipe"], label_kind, len(rows), heavy],
+                "trivial": not nontrivial,
+                "hist": {"op": "sort_" + kind, "layout": inp["recipe"], "labels": label_kind, "na_position": na_position,
+                         "raised": res[0] == "err", "heavy": heavy}})
+        except Exception:  # noqa: BLE001
+            cases.append(_uninterpretable(i, 'C11'))
     for k, c in enumerate(cases):
         c["cid"] = k
     return cases
